@@ -32,13 +32,13 @@ M("c06-ufold-star", "C06", "C06/UNFOLD",
   (P, "uFOLD = re.compile('(\\r?\\n)+[ \\t]')", "uFOLD = re.compile('(\\r?\\n)+[ \\t]*')"))
 M("c06-ufold-plus", "C06", "C06/UNFOLD",
   (P, "uFOLD = re.compile('(\\r?\\n)+[ \\t]')", "uFOLD = re.compile('(\\r?\\n)+[ \\t]+')"))
-M("c06-encode-before-fold", "C06", "C06/WHOLE-CHARS",
+M("c06-encode-before-fold", "C06", "C06/PHYS-MODEL",
   (P, "return foldline(self).encode(DEFAULT_ENCODING)",
       "return foldline(self.encode(DEFAULT_ENCODING).decode('latin-1')).encode('latin-1')"))
 M("c06-char-dropped-on-fold", "C06", "C06/WHOLE-CHARS",
   (P, "            byte_count = char_byte_len\n        ret_chars.append(char)",
       "            byte_count = char_byte_len\n            continue\n        ret_chars.append(char)"))
-M("c06-join-lf-only", "C06", "C06/EMIT",
+M("c06-join-lf-only", "C06", "C06/PHYS-MODEL",
   (P, "return b'\\r\\n'.join(line.to_ical() for line in self if line) + b'\\r\\n'",
       "return b'\\n'.join(line.to_ical() for line in self if line) + b'\\r\\n'"))
 M("c06-twin-rename-locals", "C06", "silent",
@@ -58,16 +58,16 @@ M("c09-revert-vtimezone", "C09", "C09/CASE-TAINT",
       "if vals == 'VTIMEZONE' and 'TZID' in component:"))
 M("c09-begin-raw", "C09", "C09/CASE-TAINT",
   (C, "if uname == 'BEGIN':", "if name == 'BEGIN':"))
-M("c09-cname-raw", "C09", "C09/CASE-TAINT",
+M("c09-cname-raw", "C09", "C09/CASE-MODEL",
   (C, "c_name = vals.upper()", "c_name = vals"))
 M("c09-newline-crlf-only", "C09", "C09/EOL-FOLD",
   (P, "NEWLINE = re.compile(r'\\r?\\n')", "NEWLINE = re.compile(r'\\r\\n')"))
-M("c09-split-before-unfold", "C09", "C09/EOL-FOLD",
+M("c09-split-before-unfold", "C09", "C09/PHYS-MODEL",
   (P, "line in NEWLINE.split(unfolded) if line)", "line in NEWLINE.split(st) if line)"))
-M("c09-codec-utf8", "C09", "C09/BOM-BYTES",
+M("c09-codec-utf8", "C09", "C09/PHYS-MODEL",
   ("parser_tools.py", "def to_unicode(value: ICAL_TYPE, encoding='utf-8-sig') -> str:",
    "def to_unicode(value: ICAL_TYPE, encoding='utf-8') -> str:"))
-M("c09-blank-lines-kept", "C09", "C09/EOL-FOLD",
+M("c09-blank-lines-kept", "C09", "C09/PHYS-MODEL",
   (P, "line in NEWLINE.split(unfolded) if line)", "line in NEWLINE.split(unfolded))"))
 M("c09-add-raw-compare", "C09", "C09/CASE-TAINT",
   (C, "name.lower() in ('dtstamp', 'created', 'last-modified', 'acknowledged')",
@@ -190,25 +190,27 @@ M("c08-quotable-no-colon", "C08", "C08/QUOTE",
   (P, 'QUOTABLE = re.compile("[,;: ’\']")', 'QUOTABLE = re.compile("[,; ’\']")'))
 M("c08-quotable-no-semicolon", "C08", "C08/QUOTE",
   (P, 'QUOTABLE = re.compile("[,;: ’\']")', 'QUOTABLE = re.compile("[,: ’\']")'))
-M("c08-qjoin-plain-join", "C08", "C08/QUOTE",
+M("c08-qjoin-plain-join", "C08", "C08/PARAM-MODEL",
   (P, "return sep.join(dquote(itm) for itm in lst)", "return sep.join(itm for itm in lst)"))
-M("c08-dquote-keeps-dquote", "C08", "C08/QUOTE",
+M("c08-dquote-keeps-dquote", "C08", "C08/PARAM-MODEL",
   (P, "    val = val.replace('\"', \"'\")\n", ""))
-M("c08-reader-str-split", "C08", "C08/ARITY",
+M("c08-reader-str-split", "C08", "C08/PARAM-MODEL",
   (P, "for v in q_split(val, ','):", "for v in val.split(','):"))
-M("c08-reader-semicolon-values", "C08", "C08/DELIMS",
+M("c08-reader-semicolon-values", "C08", "C08/PARAM-MODEL",
   (P, "for v in q_split(val, ','):", "for v in q_split(val, ';'):"))
-M("c08-writer-no-upper", "C08", "C08/CASE",
+# equivalent mutant: CaselessDict keys are upper-case already (C17), so key.upper() in
+# Parameters.to_ical is redundant; the former shape rule C08/CASE fired on it (false alarm)
+M("c08-writer-no-upper", "C08", "silent",
   (P, "key = key.upper().encode(DEFAULT_ENCODING)", "key = key.encode(DEFAULT_ENCODING)"))
-M("c08-arity-first-only", "C08", "C08/ARITY",
+M("c08-arity-first-only", "C08", "C08/PARAM-MODEL",
   (P, "                    if len(vals) == 1:\n                        result[key] = vals[0]\n                    else:\n                        result[key] = vals",
       "                    result[key] = vals[0]"))
-M("c08-strict-drops-unquoted", "C08", "C08/ARITY",
+M("c08-strict-drops-unquoted", "C08", "C08/PARAM-MODEL",
   (P, "                        if strict:\n                            vals.append(v.upper())\n                        else:\n                            vals.append(v)",
       "                        if strict:\n                            vals.append(v.upper())"))
-M("c08-param-value-raw-str", "C08", "C08/QUOTE",
+M("c08-param-value-raw-str", "C08", "C08/PARAM-MODEL",
   (P, "    elif isinstance(value, str):\n        return dquote(value)", "    elif isinstance(value, str):\n        return value"))
-M("c08-writer-colon-kv", "C08", "C08/DELIMS",
+M("c08-writer-colon-kv", "C08", "C08/PARAM-MODEL",
   (P, "result.append(key + b'=' + value)", "result.append(key + b':' + value)"))
 M("c08-twin-rename", "C08", "silent",
   (P, "def dquote(val):", "def dquote(val, _unused=None):"))
@@ -217,27 +219,27 @@ M("c08-twin-rename", "C08", "silent",
 M("c05-second-construction-path", "C05", "C05/LF-GATE",
   (P, "    @classmethod\n    def from_parts(cls, name, params, values, sorted=True):",
       "    @classmethod\n    def _raw(cls, value):\n        return str.__new__(Contentline, value)\n\n    @classmethod\n    def from_parts(cls, name, params, values, sorted=True):"))
-M("c05-gate-removed", "C05", "C05/LF-GATE",
+M("c05-gate-removed", "C05", "C05/LINE-MODEL",
   (P, "        assert '\\n' not in value, ('Content line can not contain unescaped '\n                                   'new line characters.')\n", ""))
-M("c05-gate-after-construction", "C05", "C05/LF-GATE",
+M("c05-gate-after-construction", "C05", "C05/LINE-MODEL",
   (P, "        assert '\\n' not in value, ('Content line can not contain unescaped '\n                                   'new line characters.')\n        self = super().__new__(cls, value)\n",
       "        self = super().__new__(cls, value)\n        assert '\\n' not in self.strip(), ('Content line can not contain unescaped '\n                                   'new line characters.')\n"))
-M("c05-from-parts-comma", "C05", "C05/DELIMS",
+M("c05-from-parts-comma", "C05", "C05/LINE-MODEL",
   (P, "return cls(f'{name};{params}:{values}')", "return cls(f'{name},{params}:{values}')"))
-M("c05-scanner-last-colon", "C05", "C05/DELIMS",
+M("c05-scanner-last-colon", "C05", "C05/LINE-MODEL",
   (P, "if ch == ':' and not value_split:", "if ch == ':':"))
-M("c05-scanner-ignores-quotes", "C05", "C05/DELIMS",
+M("c05-scanner-ignores-quotes", "C05", "C05/LINE-MODEL",
   (P, "                if not in_quotes:\n                    if ch in ':;' and not name_split:",
       "                if True:\n                    if ch in ':;' and not name_split:"))
-M("c05-value-slice-off-by-one", "C05", "C05/DELIMS",
+M("c05-value-slice-off-by-one", "C05", "C05/LINE-MODEL",
   (P, "values = unescape_string(st[value_split + 1:])", "values = unescape_string(st[value_split:])"))
-M("c05-quotable-no-colon", "C05", "C05/NEUTRALISE",
+M("c05-quotable-no-colon", "C05", "C05/PARAM-MODEL",
   (P, 'QUOTABLE = re.compile("[,;: ’\']")', 'QUOTABLE = re.compile("[,; ’\']")'))
-M("c05-dquote-keeps-quote", "C05", "C05/NEUTRALISE",
+M("c05-dquote-keeps-quote", "C05", "C05/PARAM-MODEL",
   (P, "    val = val.replace('\"', \"'\")\n", ""))
-M("c05-no-token-check", "C05", "C05/TOKEN",
+M("c05-no-token-check", "C05", "C05/LINE-MODEL",
   (P, "            validate_token(name)\n            if not value_split:", "            if not value_split:"))
-M("c05-param-name-unvalidated", "C05", "C05/TOKEN",
+M("c05-param-name-unvalidated", "C05", "C05/PARAM-MODEL",
   (P, "                validate_token(key)\n", ""))
 M("c05-name-allows-colon", "C05", "C05/TOKEN",
   (P, "NAME = re.compile(r'[\\w.-]+')", "NAME = re.compile(r'[\\w.:-]+')"))
